@@ -1,7 +1,7 @@
 """props.py — per-property configuration: which Coq file states it, which
 correspondence suites tie the model to /repo, and how their results are compared
 (only the observables the property speaks about)."""
-import re
+import os, re
 from common import shrink_after_bar, shrink_hex_last_field
 
 TB_COMMON = [
@@ -1191,3 +1191,26 @@ PROPS["C18"] = dict(
                           nontrivial=lambda p, i, m: m.count("m:") >= 3,
                           what="4 x cores goroutines with own Marshaller/Cloner instances and the package-level helpers, sharing one atlas and read-only inputs, all jobs in random order for 3 rounds, under -race; every result compared with the sequential run and the model"))],
 )
+
+
+def _diagnose_c18():
+    """names the package-level variables that break C18_no_shared_writes"""
+    import common
+    try:
+        src = open(os.path.join(common.COQ, "gen", "SharedState.v")).read()
+        prop = open(os.path.join(common.COQ, "Properties_C18.v")).read()
+    except OSError:
+        return ""
+    q = r'"((?:[^"]|"")*)"'
+    rows = re.findall(r'SV %s %s %s %s %s (\d+) (\d+) (\d+)' % (q, q, q, q, q), src)
+    rev = set(re.findall(r'\(%s, %s, %s\)' % (q, q, q), prop))
+    bad = []
+    for pkg, name, typ, init, cls, w, a, c in rows:
+        if int(w) or int(a):
+            bad.append("%s.%s is written (%s) or address-taken (%s) outside its declaration/init()" % (pkg, name, w, a))
+        elif cls != "const-like" and (pkg, name, init) not in rev:
+            bad.append("%s.%s = %s is a package-level variable that is neither a constant expression nor reviewed" % (pkg, name, init.replace('""', '"')[:100]))
+    return "; ".join(bad)
+
+
+PROPS["C18"]["diagnose"] = _diagnose_c18
